@@ -385,7 +385,7 @@ def _frame_bindings(path: Path, index: int):
         if other.kind == 'enter' and other.data.get('fid') != fid and \
                 pos + 1 < len(path.events) and \
                 path.events[pos + 1].data.get('fid') == fid:
-            call = other.node.value if isinstance(other.node, ast.Await) else other.node
+            call = other.node.value if isinstance(other.node, (ast.Await, ast.YieldFrom)) else other.node
             callee = other.data.get('callee')
             if isinstance(call, ast.Call) and callee is not None and \
                     not isinstance(callee.fn.node, ast.Lambda):
@@ -959,6 +959,55 @@ def activation_resumes(path: Path):
             result.append((index, node.func.attr,
                            normalise_state_aliases(ast.unparse(receiver.value))))
     return result
+
+
+def thunk_body(an: Analysis, fn: FunctionInfo, expr, depth: int = 3):
+    """
+    what a zero-argument callable computes when called, as one expression in terms of the
+    names visible where it was made: the body of ``lambda: E``, the call ``F(a, b)`` that
+    ``functools.partial(F, a, b)`` stands for -- with ``F`` replaced by its body when it is
+    a plain function that only returns one expression.  None if not of these forms.
+    """
+    import copy
+    if isinstance(expr, ast.Lambda):
+        args = expr.args
+        if args.args or args.posonlyargs or args.kwonlyargs or args.vararg or args.kwarg:
+            return None
+        body = expr.body
+    elif isinstance(expr, ast.Call) and ast.unparse(expr.func).split('.')[-1] == 'partial' \
+            and expr.args and not any(isinstance(a, ast.Starred) for a in expr.args):
+        binding = an.p.resolve_dotted(fn.module, expr.func)
+        if not binding or binding[0] != 'ext' or binding[1] != 'functools.partial':
+            return None
+        body = ast.copy_location(ast.Call(func=expr.args[0], args=list(expr.args[1:]),
+                                          keywords=list(expr.keywords)), expr)
+    else:
+        return None
+    for _ in range(depth):
+        if not (isinstance(body, ast.Call) and isinstance(body.func, ast.Name)):
+            break
+        binding = an.p.resolve_dotted(fn.module, body.func)
+        target = an.p.functions.get(binding[1]) if binding and binding[0] == 'func' else None
+        if target is None or target.kind != 'sync' or target.cls is not None:
+            break
+        stmts = [s for s in target.node.body
+                 if not (isinstance(s, ast.Expr) and isinstance(s.value, ast.Constant))]
+        if len(stmts) != 1 or not isinstance(stmts[0], ast.Return) or \
+                stmts[0].value is None:
+            break
+        bound = _bind_call(body, target, 0)
+        params = [a.arg for a in target.node.args.posonlyargs + target.node.args.args
+                  + target.node.args.kwonlyargs]
+        if set(bound) != set(params):
+            break
+
+        class Sub(ast.NodeTransformer):
+            def visit_Name(self, node):
+                if isinstance(node.ctx, ast.Load) and node.id in bound:
+                    return copy.deepcopy(bound[node.id][0])
+                return node
+        body = Sub().visit(copy.deepcopy(stmts[0].value))
+    return body
 
 
 def origin(path: Path, index: int, expr):
